@@ -110,3 +110,27 @@ class Graph:
             n = a
         p.reverse()
         return n, p
+
+
+def dfs_replay(g, make_real, step):
+    """Execute every edge of the graph exactly once on a real object.
+
+    make_real(init_node) -> real object for an initial state
+    step(real, src, label, dst) -> new real object for dst (must not mutate `real`: copy first), or None to stop there
+    """
+    visited = set()
+    n = 0
+    for init in g.init:
+        stack = [(init, make_real(init))]
+        visited.add(init)
+        while stack:
+            node, real = stack.pop()
+            for lab, dst in g.out.get(node, ()):
+                if dst == node:
+                    continue
+                new = step(real, node, lab, dst)
+                n += 1
+                if new is not None and dst not in visited:
+                    visited.add(dst)
+                    stack.append((dst, new))
+    return n
